@@ -1,5 +1,4 @@
 SPECIFICATION Spec
 CONSTANT B = 65536
-INVARIANT Inv
 POSTCONDITION Accepted
 CHECK_DEADLOCK FALSE
